@@ -33,6 +33,15 @@ seeds = []
 for fn in sorted(glob.glob(ROOT + "/seeded/*/meta.json")):
     m = json.load(open(fn))
     det = ", ".join(f"{k}: {v}" for k, v in m.get("detection", {}).items())
+    rc_p = os.path.join(os.path.dirname(fn), "reconfirm.json")
+    if os.path.exists(rc_p):
+        rc = json.load(open(rc_p))
+        if rc.get("applies") == "none":
+            det += f" — patch does not apply to /repo {rc.get('repo_head')}"
+        elif rc.get("demo_rc_mutated") == 0:
+            det += f" — STALE on /repo {rc.get('repo_head')}: a later fix: commit made the change behaviour-preserving (its demo passes with the patch applied), so a miss is not a miss"
+        if os.path.exists(os.path.join(os.path.dirname(fn), "patch-orig-pre2956bb2.diff")):
+            det += " — patch re-based by the lead on /repo 2956bb2 (original kept as patch-orig-pre2956bb2.diff)"
     need = m.get("needs_to_manifest", "")[:260]
     seeds.append(f"| {m['id']} | {need} | {det} |")
 sd = ("Independent sub-agents (given only the property text and a scratch worktree) wrote two property-breaking changes per property that keep the 208 doctests green; "
